@@ -39,6 +39,8 @@ type vfScriptConn struct {
 	readLog   []vfIOResult
 	writeLog  []vfIOResult
 	closed    int
+	// errWithLast: the Read that drains rbuf returns its bytes together with this error (as a net.Conn may)
+	errWithLast error
 }
 
 func (s *vfScriptConn) Read(p []byte) (int, error) {
@@ -54,6 +56,10 @@ func (s *vfScriptConn) Read(p []byte) (int, error) {
 	}
 	n := copy(p, s.rbuf)
 	s.rbuf = s.rbuf[n:]
+	if len(s.rbuf) == 0 && s.errWithLast != nil {
+		s.readLog = append(s.readLog, vfIOResult{n, s.errWithLast.Error(), ""})
+		return n, s.errWithLast
+	}
 	s.readLog = append(s.readLog, vfIOResult{n, "", ""})
 	return n, nil
 }
@@ -579,7 +585,15 @@ func vfPlay(ex *vfExchange, isServer bool, r *verifkit.Rand, coll Collector) (re
 	conn := TracingHTTP2Conn(sc, isServer, coll)
 	readOK, writeOK = true, true
 	pn = verifkit.Catch(func() {
-		for _, st := range ex.Steps {
+		lastRead := -1
+		for i, st := range ex.Steps {
+			if (st.Dir == 0) == isServer && len(st.Bytes) > 0 {
+				lastRead = i
+			}
+		}
+		// the peer's last bytes arrive in the same Read as io.EOF - only when nothing else follows on the connection
+		eofWithData := r.Chance(1, 2) && lastRead == len(ex.Steps)-1
+		for si, st := range ex.Steps {
 			isRead := (st.Dir == 0) == isServer // the server reads requests, the client reads responses
 			data := st.Bytes
 			for len(data) > 0 {
@@ -587,14 +601,21 @@ func vfPlay(ex *vfExchange, isServer bool, r *verifkit.Rand, coll Collector) (re
 				chunk := data[:n]
 				data = data[n:]
 				if isRead {
+					finalChunk := eofWithData && si == lastRead && len(data) == 0
 					sc.mu.Lock()
 					sc.rbuf = append(sc.rbuf, chunk...)
+					if finalChunk {
+						sc.errWithLast = io.EOF
+					}
 					sc.mu.Unlock()
 					var got []byte
 					for len(got) < len(chunk) {
 						buf := make([]byte, 1+r.Intn(96))
 						canary := append([]byte(nil), buf...)
 						k, err := conn.Read(buf)
+						if finalChunk && k > 0 && err == io.EOF && len(got)+k == len(chunk) {
+							err = nil // scripted: bytes and EOF in one Read
+						}
 						if err != nil || k == 0 {
 							readOK, detail = false, fmt.Sprintf("Read returned (%d, %v) although the inner conn had data", k, err)
 							return
@@ -1096,4 +1117,162 @@ func vfOrderFault(r *verifkit.Rand) [2][]byte {
 		}
 	}
 	return out
+}
+
+
+// TestVerifC15RetryTimer: the hold-back of a refused stream is a real timer;
+// drive it with real (generously spaced) delays.
+func TestVerifC15RetryTimer(t *testing.T) {
+	rep := verifkit.Begin("C15", "retry-timer", "client-side traced connection, hand-built frames, real sleeps around the 3 s retry window: (A) refused, retried at once, the retry refused again 2 s later, retried again 3.5 s after the first refusal; (B) refused and retried once, then 3.4 s of silence; (C) refused and never retried; oracle: A and B deliver exactly one trace, the successful retry's; C delivers nothing for 1.5 s and exactly the refused trace after 3.5 s; sleeps that overshoot the margins make the scenario inconclusive; distinct = scenario")
+	defer rep.Write()
+	type frames struct {
+		req, resp *vfDirEnc
+		sc        *vfScriptConn
+		conn      net.Conn
+		coll      *vfCountingCollector
+	}
+	open := func() *frames {
+		f := &frames{req: vfNewDirEnc(), resp: vfNewDirEnc(), sc: &vfScriptConn{writeFail: -1}, coll: &vfCountingCollector{}}
+		f.conn = TracingHTTP2Conn(f.sc, false, f.coll)
+		_ = f.req.fr.WriteSettings()
+		_, _ = f.conn.Write(append([]byte(clientPreface), f.req.take()...))
+		_ = f.resp.fr.WriteSettings()
+		f.sc.mu.Lock()
+		f.sc.rbuf = append(f.sc.rbuf, f.resp.take()...)
+		f.sc.mu.Unlock()
+		return f
+	}
+	drain := func(f *frames) {
+		buf := make([]byte, 4096)
+		for {
+			f.sc.mu.Lock()
+			n := len(f.sc.rbuf)
+			f.sc.mu.Unlock()
+			if n == 0 {
+				return
+			}
+			_, _ = f.conn.Read(buf)
+		}
+	}
+	request := func(f *frames, id uint32, name string) {
+		r := verifkit.Stream("c15timer", int(id))
+		f.req.headers(r, id, f.req.block(":method", "POST", ":scheme", "http", ":authority", "example.test", ":path", "/connectrpc.conformance.v1.ConformanceService/Unary", "content-type", "application/grpc", "te", "trailers", "x-test-case-name", name), false, false)
+		_ = f.req.fr.WriteData(id, true, vfEnvelope(0, []byte("req")))
+		_, _ = f.conn.Write(f.req.take())
+	}
+	refuse := func(f *frames, id uint32) {
+		_ = f.resp.fr.WriteRSTStream(id, http2.ErrCodeRefusedStream)
+		f.sc.mu.Lock()
+		f.sc.rbuf = append(f.sc.rbuf, f.resp.take()...)
+		f.sc.mu.Unlock()
+		drain(f)
+	}
+	answer := func(f *frames, id uint32) {
+		r := verifkit.Stream("c15timer-a", int(id))
+		f.resp.headers(r, id, f.resp.block(":status", "200", "content-type", "application/grpc"), false, false)
+		_ = f.resp.fr.WriteData(id, false, vfEnvelope(0, []byte("resp")))
+		f.resp.headers(r, id, f.resp.block("grpc-status", "0"), true, false)
+		f.sc.mu.Lock()
+		f.sc.rbuf = append(f.sc.rbuf, f.resp.take()...)
+		f.sc.mu.Unlock()
+		drain(f)
+	}
+	count := func(f *frames, name string) (int, []Trace) {
+		f.coll.mu.Lock()
+		defer f.coll.mu.Unlock()
+		return len(f.coll.traces[name]), append([]Trace(nil), f.coll.traces[name]...)
+	}
+	var wg sync.WaitGroup
+	var mu sync.Mutex // guards rep
+	verdict := func(fn func()) { mu.Lock(); defer mu.Unlock(); fn() }
+	wg.Add(3)
+	go func() { // A
+		defer wg.Done()
+		f := open()
+		t0 := time.Now()
+		request(f, 1, "T/a")
+		refuse(f, 1)
+		tRef1 := time.Since(t0)
+		request(f, 3, "T/a")
+		time.Sleep(2 * time.Second)
+		refuse(f, 3)
+		tRef2 := time.Since(t0)
+		time.Sleep(3500*time.Millisecond - time.Since(t0))
+		request(f, 5, "T/a")
+		answer(f, 5)
+		tDone := time.Since(t0)
+		time.Sleep(300 * time.Millisecond)
+		n, ts := count(f, "T/a")
+		_ = f.conn.Close()
+		verdict(func() {
+			rep.Eval(1)
+			rep.DistinctKey("A")
+			w := map[string]any{"scenario": "A: refused, retried, refused again, retried again", "first_refusal_ms": tRef1.Milliseconds(), "second_refusal_ms": tRef2.Milliseconds(), "final_answer_ms": tDone.Milliseconds()}
+			if tDone-tRef2 > 2500*time.Millisecond || tRef2 < 1500*time.Millisecond {
+				rep.Inconcl(fmt.Sprintf("scenario A: the machine stretched the schedule (%v), the second hold-back may have expired legitimately", w))
+				return
+			}
+			rep.Count("timer_scenarios_decided", 1)
+			if n != 1 {
+				rep.Violation(fmt.Sprintf("h2/retry-timer/trace-count/%d", n), fmt.Sprintf("%d traces for a call refused twice and answered on the third attempt (each retry inside the hold-back window)", n), w)
+			} else if ts[0].Err != nil || ts[0].Response == nil {
+				rep.Violation("h2/retry-timer/wrong-attempt", fmt.Sprintf("the delivered trace is not the successful attempt's: err=%v", ts[0].Err), w)
+			}
+		})
+	}()
+	go func() { // B
+		defer wg.Done()
+		f := open()
+		request(f, 1, "T/b")
+		refuse(f, 1)
+		request(f, 3, "T/b")
+		answer(f, 3)
+		time.Sleep(3400 * time.Millisecond)
+		n, ts := count(f, "T/b")
+		_ = f.conn.Close()
+		verdict(func() {
+			rep.Eval(1)
+			rep.DistinctKey("B")
+			rep.Count("timer_scenarios_decided", 1)
+			w := map[string]any{"scenario": "B: refused, retried, answered, then silence past the window"}
+			if n != 1 {
+				rep.Violation(fmt.Sprintf("h2/retry-timer/trace-count/%d", n), fmt.Sprintf("%d traces for a call refused once and answered on the retry", n), w)
+			} else if ts[0].Err != nil {
+				rep.Violation("h2/retry-timer/wrong-attempt", fmt.Sprintf("the delivered trace carries %v", ts[0].Err), w)
+			}
+		})
+	}()
+	go func() { // C
+		defer wg.Done()
+		f := open()
+		t0 := time.Now()
+		request(f, 1, "T/c")
+		refuse(f, 1)
+		time.Sleep(1500 * time.Millisecond)
+		early, _ := count(f, "T/c")
+		tEarly := time.Since(t0)
+		time.Sleep(3600*time.Millisecond - time.Since(t0))
+		n, ts := count(f, "T/c")
+		_ = f.conn.Close()
+		verdict(func() {
+			rep.Eval(1)
+			rep.DistinctKey("C")
+			w := map[string]any{"scenario": "C: refused, never retried", "early_probe_ms": tEarly.Milliseconds()}
+			if tEarly > 2800*time.Millisecond {
+				rep.Inconcl("scenario C: early probe came too late")
+			} else if early != 0 {
+				rep.Violation("h2/retry-timer/refused-trace-delivered-inside-window", "a refused stream's trace was delivered while a retry could still arrive", w)
+			}
+			rep.Count("timer_scenarios_decided", 1)
+			var se http2.StreamError
+			if n != 1 {
+				rep.Violation(fmt.Sprintf("h2/retry-timer/unretried-count/%d", n), fmt.Sprintf("%d traces for a refused call that was never retried (after the window)", n), w)
+			} else if !errors.As(ts[0].Err, &se) || se.Code != http2.ErrCodeRefusedStream {
+				rep.Violation("h2/retry-timer/unretried-error", fmt.Sprintf("the trace of the refused, never retried call carries %v", ts[0].Err), w)
+			}
+		})
+	}()
+	wg.Wait()
+	rep.Sample(map[string]any{"scenario": "A", "expect": "one trace: attempt 3 (200, grpc-status 0)"})
+	rep.RequireMin("timer_scenarios_decided", 2)
 }
